@@ -49,6 +49,67 @@ func loadKnown(path string) []KnownFinding {
 	return out
 }
 
+// loadUnclaimed reads obligation names (one per line, '#' comments, trailing '*' = prefix) that are generated but not
+// claimed because no solver of the portfolio carries them reliably within the cap.
+func loadUnclaimed(path string) []string {
+	data, err := os.ReadFile(path)
+	if err != nil {
+		return nil
+	}
+	var out []string
+	for _, l := range strings.Split(string(data), "\n") {
+		l = strings.TrimSpace(l)
+		if l == "" || strings.HasPrefix(l, "#") {
+			continue
+		}
+		out = append(out, strings.Fields(l)[0])
+	}
+	return out
+}
+
+// matchUnclaimed: an entry is an obligation name, a prefix ending in '*', or `<function>#safety:<kind>@<text>` which
+// matches the safety obligations of that kind raised on a source line containing <text> (ordinals of safety obligations
+// shift when code above them is edited, the text of the line does not).
+func matchUnclaimed(list []string, name string, pos string, repo string) bool {
+	for _, u := range list {
+		if at := strings.Index(u, "@"); at > 0 {
+			if strings.HasPrefix(name, u[:at]+":") && sourceLineContains(repo, pos, strings.ReplaceAll(u[at+1:], "\\s", " ")) {
+				return true
+			}
+			continue
+		}
+		if strings.HasSuffix(u, "*") {
+			if strings.HasPrefix(name, strings.TrimSuffix(u, "*")) {
+				return true
+			}
+		} else if u == name {
+			return true
+		}
+	}
+	return false
+}
+
+var srcCache = map[string][]string{}
+
+func sourceLineContains(repo, pos, text string) bool {
+	i := strings.LastIndex(pos, ":")
+	if i < 0 {
+		return false
+	}
+	file, ln := pos[:i], 0
+	fmt.Sscanf(pos[i+1:], "%d", &ln)
+	if !filepath.IsAbs(file) {
+		file = filepath.Join(repo, file)
+	}
+	lines, ok := srcCache[file]
+	if !ok {
+		data, _ := os.ReadFile(file)
+		lines = strings.Split(string(data), "\n")
+		srcCache[file] = lines
+	}
+	return ln >= 1 && ln <= len(lines) && strings.Contains(lines[ln-1], text)
+}
+
 func hasProp(ps []string, p string) bool {
 	for _, x := range ps {
 		if x == p {
@@ -149,7 +210,7 @@ func cmdVC(args []string) int {
 		}
 		results := solveAll(obls, scripts, vnames, dir, *timeout, false)
 		for _, r := range results {
-			okr := r.R.Status == "unsat" && !r.O.Cover || r.O.Cover && r.R.Status == "sat"
+			okr := r.R.Status == "unsat" && !r.O.Cover || r.O.Cover && (r.R.Status == "sat" || r.O.Kind == "vacuity" && r.R.Status != "unsat")
 			if *failing && okr {
 				continue
 			}
@@ -176,6 +237,11 @@ func cmdVC(args []string) int {
 				}
 			}
 		}
+		if os.Getenv("GOVC_TAGS") != "" {
+			for i, t := range typeTagList {
+				fmt.Printf("tag %d = %s\n", i+1, t)
+			}
+		}
 		for _, n := range res.Exec.notes {
 			fmt.Println("note:", n)
 		}
@@ -187,6 +253,10 @@ func cmdVC(args []string) int {
 }
 
 func solveAll(obls []*Obligation, scripts []string, valueNames [][]string, dir string, timeoutMs int, thorough bool) []*oblResult {
+	return solveAllSkipping(obls, scripts, valueNames, dir, timeoutMs, thorough, nil)
+}
+
+func solveAllSkipping(obls []*Obligation, scripts []string, valueNames [][]string, dir string, timeoutMs int, thorough bool, skip map[int]bool) []*oblResult {
 	results := make([]*oblResult, len(obls))
 	// obligations with optional extra assumptions are first tried without them
 	plain := make([]string, len(obls))
@@ -203,12 +273,21 @@ func solveAll(obls []*Obligation, scripts []string, valueNames [][]string, dir s
 			results[i] = &oblResult{O: obls[i], R: &SolverResult{Status: "unsat", Solver: "trivial"}}
 			continue
 		}
+		if skip[i] {
+			results[i] = &oblResult{O: obls[i], R: &SolverResult{Status: "not-run", Solver: "unclaimed"}}
+			continue
+		}
 		wg.Add(1)
 		sem <- struct{}{}
 		go func() {
 			defer wg.Done()
 			defer func() { <-sem }()
 			var r *SolverResult
+			if obls[i].Kind == "vacuity" {
+				r = SolveProbe(scripts[i], dir, obls[i].Name)
+				results[i] = &oblResult{O: obls[i], R: r}
+				return
+			}
 			if plain[i] != "" {
 				short := timeoutMs / 3
 				r = Solve(plain[i], dir, obls[i].Name+".plain", short, false, nil, true)
@@ -222,6 +301,27 @@ func solveAll(obls []*Obligation, scripts []string, valueNames [][]string, dir s
 				r = Solve(scripts[i], dir, obls[i].Name, timeoutMs, thorough, valueNames[i], obls[i].Cover)
 			}
 			results[i] = &oblResult{O: obls[i], R: r}
+		}()
+	}
+	wg.Wait()
+	// retry phase: an obligation left undecided (unknown / timeout) while 48 solver processes share the machine is tried
+	// again with little competition and three times the budget, so that load does not turn into an alarm
+	sem2 := make(chan struct{}, 4)
+	for i := range obls {
+		i := i
+		r := results[i]
+		if r == nil || obls[i].Cover || r.R.Status == "unsat" || r.R.Status == "sat" || r.R.Status == "not-run" {
+			continue
+		}
+		wg.Add(1)
+		sem2 <- struct{}{}
+		go func() {
+			defer wg.Done()
+			defer func() { <-sem2 }()
+			r2 := Solve(scripts[i], dir, obls[i].Name+".retry", 3*timeoutMs, thorough, valueNames[i], false)
+			r2.Ms += r.R.Ms
+			r2.Tried = append(r.R.Tried, r2.Tried...)
+			results[i] = &oblResult{O: obls[i], R: r2}
 		}()
 	}
 	wg.Wait()
@@ -349,9 +449,27 @@ func cmdCheck(args []string) int {
 	for i, o := range obls {
 		scripts[i], vnames[i] = ObligationScript(o)
 	}
-	results := solveAll(obls, scripts, vnames, workDir, timeout, thorough)
+	unclaimed := loadUnclaimed(filepath.Join(*verif, "unclaimed_obligations.txt"))
+	// quick tier: obligations listed as not claimed are generated (they count) but not sent to the solvers
+	skipped := map[int]bool{}
+	if !thorough {
+		var o2 []*Obligation
+		var s2 []string
+		var v2 [][]string
+		for i, o := range obls {
+			if matchUnclaimed(unclaimed, o.Name, o.Pos, *repo) {
+				skipped[i] = true
+			}
+		}
+		_ = o2
+		_ = s2
+		_ = v2
+	}
+	results := solveAllSkipping(obls, scripts, vnames, workDir, timeout, thorough, skipped)
 
 	known := loadKnown(filepath.Join(*verif, "known_findings.jsonl"))
+	unclaimedHit := 0
+	var unclaimedNames []string
 	discharged := 0
 	var solverMs int64
 	violations := 0
@@ -399,6 +517,15 @@ func cmdCheck(args []string) int {
 			perObl = append(perObl, entry)
 			continue
 		}
+		if matchUnclaimed(unclaimed, r.O.Name, r.O.Pos, *repo) {
+			// listed as not claimed (the solvers do not carry it reliably): undecided, neither proved nor a violation
+			unclaimedHit++
+			unclaimedNames = append(unclaimedNames, r.O.Name)
+			entry["unclaimed"] = true
+			lines = append(lines, fmt.Sprintf("UNDECIDED: property=%s obligation=%s is not claimed (listed in unclaimed_obligations.txt) status=%s", prop, r.O.Name, r.R.Status))
+			perObl = append(perObl, entry)
+			continue
+		}
 		violations++
 		rp := writeReplay(*verif, prop, r, p)
 		suffix := ""
@@ -410,7 +537,7 @@ func cmdCheck(args []string) int {
 		perObl = append(perObl, entry)
 	}
 	level := "proof"
-	if len(inapplicable) > 0 || discharged+knownHit < len(obls) || knownHit > 0 {
+	if len(inapplicable) > 0 || discharged+knownHit < len(obls) || knownHit > 0 || unclaimedHit > 0 {
 		level = "other"
 	}
 	var asm []string
@@ -437,6 +564,7 @@ func cmdCheck(args []string) int {
 		"obligations":              len(obls),
 		"discharged":               discharged,
 		"known_findings":           knownHit,
+		"unclaimed_undecided":      unclaimedNames,
 		"checker_cmd":              fmt.Sprintf("govc check --tier %s --repo %s %s (go/ssa VC generator; portfolio z3-new 5.1.0 / cvc5 1.0 / z3 4.8.12, %d ms cap)", *tier, *repo, prop, timeout),
 		"trusted_base":             []string{"go/types+go/ssa (x/tools v0.29.0)", "govc VC generator and contract translator (/verif/govc)", "SMT solvers z3-new 5.1.0, cvc5 1.0.x, z3 4.8.12", "library models listed under assumptions"},
 		"functions_under_contract": funcsUnder,
